@@ -66,21 +66,27 @@ def exhaustive(tier):
 
 
 def required(tier):
-    s = 1 if tier == "quick" else 20
-    return {
-        "programs_wraps": 2500 * s, "programs_check": 800 * s,
-        "wraps_ok_calls": 3000 * s, "wraps_dimerr_calls": 600 * s,
-        "strict_refused_calls": 300 * s, "nonstrict_passthrough_args": 300 * s,
-        "none_passthrough_args": 800 * s, "converted_args_checked": 3000 * s,
-        "converted_args_ratio_ne_1": 2000 * s,
-        "def_args_checked": 1000 * s, "dep_args_checked": 800 * s,
-        "kw_passed_args": 2000 * s, "defaults_used_args": 800 * s,
-        "ret_scalar_checked": 600 * s, "ret_container_checked": 600 * s,
-        "ret_derived_checked": 400 * s,
-        "check_pass_calls": 600 * s, "check_raise_calls": 600 * s,
-        "deco_mismatch_wraps": 100 * s, "deco_mismatch_check": 100 * s,
-        "offset_args_checked": 50,
+    s = 0.7 if tier == "quick" else 4
+    req = {
+        "programs_wraps": 15000 * s, "programs_check": 5000 * s,
+        "wraps_ok_calls": 40000 * s, "wraps_dimerr_calls": 6000 * s,
+        "strict_refused_calls": 1500 * s, "nonstrict_passthrough_args": 4000 * s,
+        "none_passthrough_args": 30000 * s, "none_spec_non_quantity_in_strict_mode": 5000 * s,
+        "converted_args_checked": 40000 * s, "converted_args_ratio_ne_1": 30000 * s,
+        "converted_kw_args": 15000 * s, "converted_default_args": 4000 * s,
+        "def_args_checked": 40000 * s, "dep_args_checked": 10000 * s,
+        "dep_before_its_definition_checked": 2000 * s,
+        "kw_passed_args": 80000 * s, "defaults_used_args": 20000 * s,
+        "ret_scalar_checked": 20000 * s, "ret_container_checked": 20000 * s,
+        "ret_derived_checked": 12000 * s,
+        "check_pass_calls": 12000 * s, "check_raise_calls": 6000 * s,
+        "check_raise_only_at_later_position": 2000 * s,
+        "check_args_identity_checked": 30000 * s,
+        "deco_mismatch_wraps": 600 * s, "deco_mismatch_check": 600 * s,
     }
+    req = {k: int(v * s) for k, v in req.items()}
+    req["offset_args_checked"] = 2000
+    return req
 
 
 def shards(tier, seed):
@@ -93,7 +99,7 @@ def shards(tier, seed):
     #             that the exact shards stay uncontaminated and attributable);
     # "float":    default registry, 1e-12 relative.
     n = 16 if tier == "quick" else 24
-    per = 2000 if tier == "quick" else 9000
+    per = 1500 if tier == "quick" else 9000
     out = []
     for i in range(n):
         out.append({"kind": "main", "nit": ("fraction", "fraction-str", "float")[i % 3],
@@ -229,6 +235,7 @@ class World:
         self._exp = {}
         self._dim = {}
         self._spell_ok = {}
+        self.tainted_quotients = set()
         rec.observe("pool", f"{len(self.cls_of)} units / {len(self.classes)} classes")
 
     # -- spelling validation (trusts pint's name resolution, nothing else) ----------------
@@ -338,6 +345,25 @@ class World:
 
     def ratio(self, src, dst):
         return self.expand(src) / self.expand(dst)
+
+    # -- attribution of lost exactness (Fraction registries) -------------------------------
+    # wraps hands pint's converter two kinds of non-registry containers: a float ParserHelper
+    # for a unit *string* spec, and a float `UnitsContainer({})` as the source of a bare
+    # number given for a reference spec.  Both make the factor a float, and both are cached
+    # (conversion_factor / root_units) under keys that compare equal to the exact registry
+    # containers, so later conversions with the same src/dst quotient inherit the float.
+    def quotient(self, src, dst):
+        return fkey(merge(src, dst, -1))
+
+    def note_direct(self, src, dst):
+        self.tainted_quotients.add(self.quotient(src, dst))
+
+    def inexact_via(self, direct, src, dst):
+        if direct:
+            return direct
+        if self.quotient(src, dst) in self.tainted_quotients:
+            return "cache-after-float-tainted-conversion"
+        return "unattributed"
 
     def float_safe(self, src, dst):
         """Float registry only: compare magnitudes when no exponent exceeds 3 and the
@@ -740,7 +766,10 @@ def judge_wraps_call(W, rec, prog, wrapped, recorder, style, values, strict,
                     errs.add("dim")
                 else:
                     rt = W.ratio(b.units, s.sp)
-                    exp[i] = ("val", F(b.mag) * rt, rt, W.float_safe(b.units, s.sp))
+                    dst = s.sp if s.form == "str" else s.canon
+                    direct = "string-spec" if s.form == "str" else None
+                    exp[i] = ("val", F(b.mag) * rt, rt, W.float_safe(b.units, s.sp),
+                              b.units, dst, direct)
             elif strict:
                 errs.add("refused")
             else:
@@ -756,7 +785,14 @@ def judge_wraps_call(W, rec, prog, wrapped, recorder, style, values, strict,
                 errs.add("dim")
             else:
                 rt = W.ratio(src, target)
-                exp[i] = ("val", F(b.mag) * rt, rt, W.float_safe(src, target))
+                direct = None if b.isq else "bare-number-for-reference-spec"
+                exp[i] = ("val", F(b.mag) * rt, rt, W.float_safe(src, target),
+                          src, target, direct)
+    # conversions happen (and are cached) even in calls that end with an error raised for
+    # another parameter, so float-tainting routes are noted before the call is made
+    for e in exp:
+        if e is not None and e[0] == "val" and e[6]:
+            W.note_direct(e[4], e[5])
     # pint derives the symbols' units by real quantity arithmetic (value ** exponent): a
     # zero-valued definition under a negative exponent is an observable special case
     ret_list = [ret] if ret_form == "scalar" else ret
@@ -796,6 +832,10 @@ def judge_wraps_call(W, rec, prog, wrapped, recorder, style, values, strict,
         return dict(wit, **extra)
 
     common = {"decorator": "wraps", "registry": W.nitname}
+    if W.nit is float and isinstance(raised, OverflowError):
+        # e.g. conventional_watt_90**6: the float factor itself leaves the double range
+        rec.count("float_range_skipped_calls")
+        return
     if flags["posonly_default_omitted"]:
         rec.count("posonly_default_omitted_calls")
         if type(raised) is TypeError and "positional-only" in str(raised):
@@ -843,6 +883,8 @@ def judge_wraps_call(W, rec, prog, wrapped, recorder, style, values, strict,
         if e[0] == "is":
             if role == "none":
                 rec.count("none_passthrough_args")
+                if strict and not b.isq:
+                    rec.count("none_spec_non_quantity_in_strict_mode")
             elif role == "def":
                 rec.count("def_args_checked")
             else:
@@ -858,6 +900,8 @@ def judge_wraps_call(W, rec, prog, wrapped, recorder, style, values, strict,
             rec.count("converted_args_ratio_ne_1")
         if role == "dep":
             rec.count("dep_args_checked")
+            if any(sp_.role == "def" and sp_.sym in s.refd for sp_ in specs[i + 1:]):
+                rec.count("dep_before_its_definition_checked")
         if style[i] == "kw":
             rec.count("converted_kw_args")
         elif style[i] == "omit":
@@ -870,15 +914,9 @@ def judge_wraps_call(W, rec, prog, wrapped, recorder, style, values, strict,
             continue
         c = W.cmp_number(g, e[1])
         if c == "inexact":
-            # in the "fraction" shards no string spec ever reaches _parse_wrap_args, so this
-            # can only be a new defect; in "fraction-str" shards it is the string-spec defect,
-            # either directly (this parameter's spec is a string) or through the conversion-
-            # factor cache poisoned by an earlier string spec for the same unit pair
             rec.violation("wraps-argument-inexact-in-fraction-registry",
                           witness(index=i, got=srepr(g), want=str(e[1])),
-                          via=("string-spec" if form == "str" else
-                               "cache-after-string-spec" if W.allow_str else "unit-spec"),
-                          **common)
+                          via=W.inexact_via(e[6], e[4], e[5]), **common)
         elif c == "wrong":
             rec.violation("wraps-argument-magnitude",
                           witness(index=i, got=srepr(g), want=str(e[1]),
@@ -1212,6 +1250,8 @@ def run_offsets(W, rec):
                     rec.case(("offset", a, b, form, str(x)),
                              nontrivial=a != b)
                     rec.count("offset_args_checked")
+                    if form == "str":
+                        W.note_direct({a: 1}, {b: 1})
                     try:
                         out = w(Q(xv, a))
                     except Exception as e:  # noqa: BLE001
@@ -1229,9 +1269,9 @@ def run_offsets(W, rec):
                                     "wraps-argument-inexact-in-fraction-registry",
                                     {"src": a, "dst": b, "x": str(x), "got": srepr(got),
                                      "want": str(want)},
-                                    via=("string-spec" if form == "str" else
-                                         "cache-after-string-spec" if W.allow_str
-                                         else "unit-spec"),
+                                    via=W.inexact_via(
+                                        "string-spec" if form == "str" else None,
+                                        {a: 1}, {b: 1}),
                                     decorator="wraps", registry=W.nitname)
                                 ok = True
                         else:
